@@ -1107,6 +1107,9 @@ class Interp:
                     return self.ctx.substr(s.t, item.t)
             et = self.elem_term(s.th, item, node)
             return self.ctx.seq_contains(s.th, s.t, et)
+        if isinstance(container, (VNone, VInt, VBool)):
+            self.require(False, 'in-on-non-container', node, exc='TypeError')
+            raise PyExc(VExc('TypeError', origin="argument of type '%s' is not iterable" % type(container).__name__))
         raise Unsupported('`in` on %r' % (container,), node)
 
     # ---- attribute access ------------------------------------------------------------------------
@@ -1535,6 +1538,16 @@ class Interp:
         if mode == 'inline':
             self.inlined_used.add(key)
             return self.run_function(fi, f.self_val, args, kwargs, node)
+        # no contract, not declared opaque: execute the real body symbolically (auto-inline), bounded in depth and
+        # never recursively.  Sound (it is the code that runs); it only costs modularity.  Reported under "inlined".
+        stack = self.__dict__.setdefault('auto_inline_stack', [])
+        if len(stack) < 3 and key not in stack:
+            stack.append(key)
+            self.inlined_used.add(key)
+            try:
+                return self.run_function(fi, f.self_val, args, kwargs, node)
+            finally:
+                stack.pop()
         raise Unsupported('call to %s:%s which has no contract and is not declared inline/opaque' % key, node)
 
     def run_function(self, fi, self_val, args, kwargs, node):
